@@ -1,0 +1,89 @@
+/*
+ * Verification facade: encoder / decoder entry points.
+ */
+
+use crate::alias::OutboundAliasResolution;
+use crate::decode::*;
+use crate::encode::*;
+use crate::mqtt::*;
+use crate::verif::text::*;
+
+use std::collections::VecDeque;
+use std::panic::{catch_unwind, AssertUnwindSafe};
+
+fn version_from_token(token: &str) -> TextResult<ProtocolVersion> {
+    match token { "5" => Ok(ProtocolVersion::Mqtt5), "311" => Ok(ProtocolVersion::Mqtt311), _ => Err("bad version".to_string()) }
+}
+
+/// Encodes `packet` with the crate's resumable encoder.  `capacities` is the sequence of
+/// destination-buffer capacities offered, `prefills` how many bytes each buffer already holds;
+/// the last capacity is reused until the encoder reports completion.
+/// Result: `ok x<hex of all bytes produced>` | `err:<Kind>` | `panic:<message>`
+pub fn encode(version: &str, skip_topic: bool, alias: Option<u16>, capacities: &[usize], prefills: &[usize], packet_tokens: &[&str]) -> TextResult<String> {
+    let protocol_version = version_from_token(version)?;
+    let packet = packet_from_tokens(packet_tokens)?;
+    if capacities.is_empty() { return Err("no capacities".to_string()); }
+
+    let result = catch_unwind(AssertUnwindSafe(|| -> Result<Vec<u8>, crate::error::GneissError> {
+        let mut encoder = Encoder::new();
+        let context = EncodingContext { outbound_alias_resolution: OutboundAliasResolution { skip_topic, alias }, protocol_version };
+        encoder.reset(&packet, &context)?;
+        let mut out = Vec::new();
+        let mut index = 0usize;
+        let mut rounds = 0usize;
+        loop {
+            let capacity = capacities[index.min(capacities.len() - 1)];
+            let prefill = if index < prefills.len() { prefills[index].min(capacity) } else { 0 };
+            let mut buffer: Vec<u8> = Vec::with_capacity(capacity);
+            buffer.resize(prefill, 0);
+            let encode_result = encoder.encode(&packet, &mut buffer)?;
+            out.extend_from_slice(&buffer[prefill..]);
+            index += 1;
+            rounds += 1;
+            if encode_result == EncodeResult::Complete { break; }
+            if rounds > 10_000_000 { panic!("verif: encoder makes no progress"); }
+        }
+        Ok(out)
+    }));
+
+    Ok(match result {
+        Ok(Ok(bytes)) => format!("ok {}", hex(&bytes)),
+        Ok(Err(error)) => format!("err:{}", error_kind(&error)),
+        Err(payload) => {
+            let message = if let Some(s) = payload.downcast_ref::<&str>() { s.to_string() } else if let Some(s) = payload.downcast_ref::<String>() { s.clone() } else { "unknown".to_string() };
+            format!("panic:{}", message.replace(' ', "_"))
+        }
+    })
+}
+
+/// Feeds `chunks` in order to one Decoder.  Result: one line
+/// `<verdict> n=<packets decoded> <packet text>;<packet text>...` where verdict is
+/// `ok` (all chunks consumed without error) | `err:<Kind>@<chunk index>` | `panic:<message>`;
+/// packets decoded before the failing chunk call returned are listed (those of the failing call
+/// included, as the decoder reports them).
+pub fn decode(version: &str, maximum_packet_size: u32, chunks: &[Vec<u8>]) -> TextResult<String> {
+    let protocol_version = version_from_token(version)?;
+
+    let mut decoded: VecDeque<Box<MqttPacket>> = VecDeque::new();
+    let result = catch_unwind(AssertUnwindSafe(|| -> Result<(), (usize, crate::error::GneissError)> {
+        let mut decoder = Decoder::new();
+        decoder.reset_for_new_connection();
+        for (i, chunk) in chunks.iter().enumerate() {
+            let mut context = DecodingContext { maximum_packet_size, protocol_version, decoded_packets: &mut decoded };
+            decoder.decode_bytes(chunk, &mut context).map_err(|e| (i, e))?;
+        }
+        Ok(())
+    }));
+
+    let verdict = match result {
+        Ok(Ok(())) => "ok".to_string(),
+        Ok(Err((i, error))) => format!("err:{}@{}", error_kind(&error), i),
+        Err(payload) => {
+            let message = if let Some(s) = payload.downcast_ref::<&str>() { s.to_string() } else if let Some(s) = payload.downcast_ref::<String>() { s.clone() } else { "unknown".to_string() };
+            format!("panic:{}", message.replace(' ', "_"))
+        }
+    };
+
+    let packets: Vec<String> = decoded.iter().map(|p| packet_to_text(p)).collect();
+    Ok(format!("{} n={} {}", verdict, packets.len(), packets.join(" ; ")))
+}
